@@ -74,6 +74,12 @@ Reduced ==
     \cup {Cell("elem", "", s, 0, d, 0) : s \in RT, d \in RT}
     \cup {Cell("member", "", s, ks, d, 0) : s \in {I32, U8, Bool, PTR}, ks \in 0..1, d \in {I32, U8, PTR}}
 
+\* Target shapes of an assignment: <base>:<path>; base v = a local variable, p = a pointer parameter.
+TargetShapes == {b \o ":" \o sh : b \in {"v", "p"},
+                                  sh \in {"elem", "mem", "mem.mem", "mem.elem.mem", "pmem.mem", "mem.mem.elem", "elem.mem", "mem.elem"}}
+PathAssign == {Cell("assignp", sh, s, ks, d, kd) : sh \in TargetShapes, s \in {I32, U8, P("u32"), Bool, PTR}, ks \in 0..1,
+                                                 d \in {I32, U8, Bool, PTR}, kd \in 0..1}
+
 \* the type the compiler gives the offending expression (what its context is built for)
 TypeInContext(cl) == CASE cl.ctx \in {"bin", "un"} -> ExprType(cl.a, cl.ka)
                        [] cl.ctx \in {"as", "cast"} -> cl.b
@@ -109,6 +115,7 @@ Cells ==
     \cup {Cell("argn", "", <<>>, n, <<>>, m) : n \in 0..3, m \in 0..2}
     \cup {Cell("ret", "", x[1], x[2], d, 0) : x \in {y \in SrcShapes \X (0..2) : SrcOK("ret", y[1], y[2])}, d \in RetShapes}
     \cup ContextCells
+    \cup PathAssign
 
 Init == c \in Cells
 Next == UNCHANGED c
